@@ -251,7 +251,8 @@ impl<A: Send + 'static> Cell<A> {
         A: Clone,
         B: Clone,
     {
-        let self_ = self.clone();
+        // the initial value is f of the value this cell has now, whenever it is demanded
+        let init_arg = self.sample_lazy();
         let f_deps = lambda1_deps(&f);
         let f = Arc::new(Mutex::new(f));
         let init;
@@ -259,7 +260,7 @@ impl<A: Send + 'static> Cell<A> {
             let f = f.clone();
             init = Lazy::new(move || {
                 let mut f = f.lock();
-                f.call(&self_.sample())
+                f.call(&init_arg.run())
             });
         }
         self.updates()
